@@ -98,4 +98,10 @@ def evaluate_all(sections, shard_of, timeout=900):
         spans.append((len(files), len(files) + len(fs)))
         files += fs
     res = vlib.coq_run_files(files, timeout=timeout)
+    # a shard that hit the wall-clock limit or was killed from outside (machine load, OOM killer) says nothing about
+    # the model: run those again, alone, with a generous limit, before anything is reported
+    again = [k for k, (rc, out) in enumerate(res) if rc in (124, 137, -9, -15) or rc < 0]
+    for k in again:
+        (r,) = vlib.coq_run_files([files[k]], timeout=4 * timeout)
+        res[k] = r
     return [sec.parse(res[a:b]) for sec, (a, b) in zip(sections, spans)]
